@@ -32,7 +32,8 @@ AliasClass(ev) == (IF ev.alias = "r=a=b" THEN {"alias_all"} ELSE {})
 
 (* verdict and corner classes of one event: <<ok, classes>> *)
 Verdict(ev) ==
-  CASE ev.ev = "fe.Add" ->
+  CASE ev.ev = "lib.Unexpected" -> << FALSE, {} >>                 \* a call that must succeed failed or panicked
+    [] ev.ev = "fe.Add" ->
          LET a == H(ev.a) b == H(ev.b) IN
          << Is(FAdd(a, b), ev.out) /\ PostsOK(ev),
             (IF P \preceq (a ++ b) THEN {"sum_window"} ELSE {}) \cup AliasClass(ev)
